@@ -4,13 +4,14 @@
 # /verif/benign: apply to a scratch copy, run the repository's suite (must pass), run every registered check.
 export GOFLAGS=-mod=mod GOPROXY=off GOSUMDB=off GOTOOLCHAIN=local
 cd /verif/benign
+[ -z "$VERIF_SNAP" ] && { eval "$(/verif/tools/snapshot.sh)"; trap "rm -rf $VERIF_SNAP" EXIT; }
 for p in ${@:-*.patch}; do
-  d=$(mktemp -d); out=$(mktemp -d); cp -r /repo/. $d/; rm -rf $d/.git
+  d=$(mktemp -d); out=$(mktemp -d); cp -r ${SEED_REPO:-/repo}/. $d/; rm -rf $d/.git
   (cd $d && patch -s -p1 < /verif/benign/$p) || { echo "BENIGN $p: patch does not apply"; rm -rf $d $out; continue; }
   (cd $d && go test -vet=off -count=1 ./... >$out/suite.txt 2>&1) || { echo "BENIGN $p: suite fails"; rm -rf $d $out; continue; }
   alarms=""
   for id in $(jq -r '.checks[].property_id' /verif/MANIFEST.json); do
-    GOVC_REPO=$d GOVC_OUT=$out /verif/bin/govc check $id > $out/$id.txt 2>&1 || alarms="$alarms $id($(grep -c '^VIOLATION' $out/$id.txt))"
+    GOVC_REPO=$d GOVC_OUT=$out ${GOVC_BIN:-/verif/bin/govc} check $id > $out/$id.txt 2>&1 || alarms="$alarms $id($(grep -c '^VIOLATION' $out/$id.txt))"
   done
   echo "BENIGN $p: alarms:${alarms:- none}"
   [ -n "$alarms" ] && for id in $alarms; do i=${id%%(*}; grep '^VIOLATION\|ENGINE' $out/$i.txt | head -2 | sed 's/replay=[^ ]* //' | cut -c1-220; done
